@@ -199,7 +199,8 @@ fn parse_eq_delegate_by(
         return Ok(SpanOpt(Delegate::ByRef(RefDelegate::AsRef), span));
     }
 
-    let ident = input.parse::<syn::Ident>()?;
+    // `Self` is a keyword, which `syn::Ident` refuses to parse
+    let ident = input.call(<syn::Ident as syn::ext::IdentExt>::parse_any)?;
 
     Ok(SpanOpt(
         match ident.to_string().as_str() {
